@@ -61,6 +61,7 @@ pub fn gen_case(slice: &str, rng: &mut Rng, thorough: bool, index: u64) -> Vec<S
         "wasm-iso" => wasm_gen2::gen_iso(rng, thorough),
         "wasm-det" => wasm_gen2::gen_det(rng, thorough),
         "wasm-legacy" => wasm_gen2::gen_legacy(rng, thorough),
+        "wasm-stk" => wasm_gen2::gen_stk(rng, thorough),
         "wasm-bech" => wasm::rebind_bech(wasm_gen::gen_wasm(rng, thorough)),
         "wasm-bech-codes" => wasm::rebind_bech(wasm_gen2::gen_codes(rng, thorough)),
         _ => panic!("unknown slice {}", slice),
